@@ -11,8 +11,8 @@ use crate::chain::{act_from_json, act_json, ChainCfg, ChainSt, HopAct, Loc};
 use crate::driver::ReqCfg;
 use crate::engine::{explore, replay_trace, validate_traces, Limits, Report, Sys, Tier, Violation};
 
-pub const RULE_C13: &str = "original requests {GET, POST with Content-Length: 3, POST chunked, PUT, DELETE, HEAD, GET with two cookie and two authorization fields, POST with Expect: 100-continue answered by the redirect itself, GET whose caller set a Host header naming another host, GET with 63 / 64 / 70 other headers ahead of the credentials} on {http://a.test/p, https://a.test/p, http://a.test:8080/p}, each carrying authorization: S3CRET, cookie: k=ORIG, x-keep: 1 (the main family also referer, origin, proxy-authorization); redirect-chain graph to depth 4 (thorough: depth 5 and 24 Locations) (state = hop + full fingerprint of the real Prepare flow + reference URI): at every hop every status {301,302,303,307,308} x every Location of a 29-entry pool (incl. userinfo with a colon that starts with the original host's name, three spellings of a redirect to the request's own URI, backslash and embedded-tab forms that the url crate resolves to another host; absolute http/https for hosts a.test/b.test/A.TEST with ports none/80/443/8080, hosts a.test.evil.example and a.tes that share a prefix with the original host, ws:// and ftp:// on the original host, scheme-relative, path-absolute, relative, ../, query-only) x policy {Never, SameHost} chosen independently per hop - all chains of length 1..4 incl. leave-and-return and scheme up/downgrades; in every state the head of the redirected request is written under two buffer schedules and read back. plus 3-hop chains (4 methods x 5 statuses x both policies x same-host / cross-host targets) in which the caller attaches its own Cookie and Authorization to every request before sending it: the next request must not carry them. distinct = distinct chain states (flow fingerprint x reference URI x hop)";
-pub const RULE_C14: &str = "GET requests on bases {http://a.test/p, http://a.test/d/e/f?x=1, https://a.test:8443/, http://a.test, http://a.test?x=1}, plus GET / POST (Content-Length, chunked) requests on https and http bases carrying authorization, proxy-authorization, cookie, referer, origin, user-agent, accept-encoding (depth 2, statuses 301/302/307), a GET whose caller names the Host header itself, a CONNECT followed through 307 / 308, and a GET whose URI carries userinfo redirected to spellings of its own URI that differ in the case of the userinfo / of the host; redirect-chain graph to depth 3 (thorough 4): at every hop statuses {302,307} x a ~54-entry Location pool (absolute http/https with/without/default ports, scheme-relative, path-absolute, ./ ../ ../../.. relative, trailing slash, query-only, empty, commas in path and query, a complete URL inside the query of a relative reference, userinfo, each also with #fragment, 2-3 Location fields where the last wins, a stray 100 Continue ahead of the redirect response) plus malformed values (missing, non-UTF-8, empty host, //, port 99999, unterminated IPv6 literal) x both policies; new flow's URI compared on components with an RFC 3986 section 5.2 reference that tracks its own current URI, and the request line / Host header of every state's head checked; plus 3 statuses x 3 Locations x 3 continuations of the head x every cut inside the Location value: a partly arrived Location must not be followed. distinct = distinct chain states";
+pub const RULE_C13: &str = "original requests {GET, POST with Content-Length: 3, POST chunked, PUT, DELETE, HEAD, GET with two cookie and two authorization fields, POST with Expect: 100-continue answered by the redirect itself, GET whose caller set a Host header naming another host, GET with 63 / 64 / 70 other headers ahead of the credentials, GET to IPv4 / IPv6 literal hosts redirected to other literals} on {http://a.test/p, https://a.test/p, http://a.test:8080/p}, each carrying authorization: S3CRET, cookie: k=ORIG, x-keep: 1 (the main family also referer, origin, proxy-authorization); redirect-chain graph to depth 4 (thorough: depth 5 and 24 Locations) (state = hop + full fingerprint of the real Prepare flow + reference URI): at every hop every status {301,302,303,307,308} x every Location of a 29-entry pool (incl. userinfo with a colon that starts with the original host's name, three spellings of a redirect to the request's own URI, backslash and embedded-tab forms that the url crate resolves to another host; absolute http/https for hosts a.test/b.test/A.TEST with ports none/80/443/8080, hosts a.test.evil.example and a.tes that share a prefix with the original host, ws:// and ftp:// on the original host, scheme-relative, path-absolute, relative, ../, query-only) x policy {Never, SameHost} chosen independently per hop - all chains of length 1..4 incl. leave-and-return and scheme up/downgrades; in every state the head of the redirected request is written under two buffer schedules and read back. plus 3-hop chains (4 methods x 5 statuses x both policies x same-host / cross-host targets) in which the caller attaches its own Cookie and Authorization to every request before sending it: the next request must not carry them. distinct = distinct chain states (flow fingerprint x reference URI x hop)";
+pub const RULE_C14: &str = "GET requests on bases {http://a.test/p, http://a.test/d/e/f?x=1, https://a.test:8443/, http://a.test, http://a.test?x=1}, plus GET / POST (Content-Length, chunked) requests on https and http bases carrying authorization, proxy-authorization, cookie, referer, origin, user-agent, accept-encoding (depth 2, statuses 301/302/307), a GET whose caller names the Host header itself, a CONNECT followed through 307 / 308, and a GET whose URI carries userinfo redirected to spellings of its own URI that differ in the case of the userinfo / of the host; redirect-chain graph to depth 3 (thorough 4): at every hop statuses {302,307} x a ~58-entry Location pool (absolute http/https with/without/default ports, scheme-relative, path-absolute, ./ ../ ../../.. relative, trailing slash, query-only, empty, commas in path and query, a complete URL inside the query of a relative reference, userinfo, each also with #fragment, 2-3 Location fields where the last wins, a stray 100 Continue ahead of the redirect response) plus malformed values (missing, non-UTF-8, empty host, //, port 99999, unterminated IPv6 literal) x both policies; new flow's URI compared on components with an RFC 3986 section 5.2 reference that tracks its own current URI, and the request line / Host header of every state's head checked; plus 3 statuses x 3 Locations x 3 continuations of the head x every cut inside the Location value: a partly arrived Location must not be followed. distinct = distinct chain states";
 
 fn c13_cfgs(tier: Tier) -> Vec<Arc<ChainCfg>> {
     let mut locs: Vec<Loc> = [
@@ -77,6 +77,13 @@ fn c13_cfgs(tier: Tier) -> Vec<Arc<ChainCfg>> {
         // the caller names a Host of its own that differs from the URI's host: the rule speaks about the URI's host
         let r = ReqCfg::new("GET", "1.1", uri).orig("host", "b.test").orig("authorization", "S3CRET").orig("cookie", "k=ORIG").orig("x-keep", "1");
         out.push(Arc::new(ChainCfg { prop: "C13", req: r, body: vec![], statuses: vec![302, 307], locs: locs.clone(), max_hops: 2, check_credentials: true, check_target: false, refuse_expect: false }));
+        // hosts that are IP literals: two different addresses are two different hosts
+        if uri == "http://a.test/p" {
+            for (o, ls) in [("http://10.0.0.1/p", ["http://10.0.0.2/q", "http://[::1]/q", "/q", "http://10.0.0.1:8080/q"]), ("http://[::1]/p", ["http://[::2]/q", "http://10.0.0.1/q", "/q", "http://[::1]:8080/q"])] {
+                let r = ReqCfg::new("GET", "1.1", o).orig("authorization", "S3CRET").orig("cookie", "k=ORIG").orig("x-keep", "1");
+                out.push(Arc::new(ChainCfg { prop: "C13", req: r, body: vec![], statuses: vec![302, 307], locs: ls.iter().map(|l| Loc::one(l)).collect(), max_hops: 2, check_credentials: true, check_target: false, refuse_expect: false }));
+            }
+        }
         // a request with many headers: the ones to suppress sit behind 63, 64 and 70 others
         for fillers in [63usize, 64, 70] {
             let mut r = ReqCfg::new("GET", "1.1", uri);
@@ -124,6 +131,9 @@ fn c14_cfgs(tier: Tier) -> Vec<Arc<ChainCfg>> {
         "/maps/@59.33,18.06,12z?ids=1,2,3",
         "cb?return=list,//c.test/p",
         "http://c.test/a,b",
+        // a colon in a query-only or fragment-only reference does not make a scheme
+        "?t=12:30",
+        "#sec:3",
         // a complete URL inside the query of a relative reference is data
         "/login?return_to=https://a.test/home",
         "//b.test/sso?continue=https://c.test/x",
@@ -134,7 +144,9 @@ fn c14_cfgs(tier: Tier) -> Vec<Arc<ChainCfg>> {
     let mut locs: Vec<Loc> = Vec::new();
     for l in base_locs {
         locs.push(Loc::one(l));
-        locs.push(Loc::one(&format!("{}#frag", l)));
+if !l.contains('#') {
+            locs.push(Loc::one(&format!("{}#frag", l)));
+        }
     }
     // several Location fields: the last wins
     locs.push(Loc::many(vec![b"http://first.test/1".to_vec(), b"/last".to_vec()]));
